@@ -15,6 +15,7 @@ import re
 from rules.common import *
 from rules.order import must_precede, call_pred, sites, ok_cut
 
+TECHNIQUE = ('static analysis over rustc MIR: must-pass-through publish sequence (open tmp, set_len, copy, sync_all, rename) with `?` edges, constant-string analysis of the temporary suffix against the id parser, listing filters of sibling backends, ranged-read shape, no dropped file-system Result')
 LEVEL = "other"
 EXPLANATION = (
     "Ordering (must-pass-through), provenance and error-propagation rules over the MIR of rustic_backend::local and the "
